@@ -75,8 +75,14 @@ def conv_trace(script, events, m):
 
 
 def cases_module(modname, base, cases):
-    """cases: list of (machine_tla_text, [event dicts])"""
+    """cases: list of (machine_tla_text, [event dicts]); identical machine texts are emitted once"""
+    midx = {}
+    mtexts = []
     parts = []
     for mt, evs in cases:
-        parts.append('[M |-> %s,\n T |-> %s]' % (mt, tla(evs)))
-    return '---- MODULE %s ----\nEXTENDS %s\nCasesDef == <<\n%s\n>>\n====\n' % (modname, base, ',\n'.join(parts))
+        if mt not in midx:
+            midx[mt] = len(mtexts) + 1
+            mtexts.append(mt)
+        parts.append('[mi |-> %d,\n T |-> %s]' % (midx[mt], tla(evs)))
+    return ('---- MODULE CasesData ----\nEXTENDS Integers, Sequences, TLC\nMachines == <<\n%s\n>>\nCases == <<\n%s\n>>\n====\n'
+            % (',\n'.join(mtexts), ',\n'.join(parts)))
